@@ -42,12 +42,27 @@ func (in *injector) onEvent(ev *FSEvent) (bool, int, error) {
 		if in.partial && len(ev.Data) > 1 {
 			lens := tornLengths(ev.Data, strings.HasSuffix(ev.Path, ".dat"))
 			n = lens[in.rngPick(len(lens))]
+			// a torn prefix whose missing rest is all zero bytes is, on a zero-filled segment, byte for byte the
+			// complete write (a record ending in a key such as "a\x00"): that write did not fail in any observable
+			// way, so it is not used as a "failed write" - the longest prefix that cuts off a non-zero byte is
+			for n > 0 && allZero(ev.Data[n:]) {
+				n--
+			}
 			partialWriteToFile(filepath.Join(in.root, ev.Path), ev.Off, ev.Data, n)
 		}
 		return true, n, errInjected
 	default: // open truncate sync close remove
 		return true, 0, errInjected
 	}
+}
+
+func allZero(b []byte) bool {
+	for _, x := range b {
+		if x != 0 {
+			return false
+		}
+	}
+	return true
 }
 
 // txMethodArgs builds arguments for an exported Tx method by parameter type.
@@ -256,6 +271,14 @@ func runC12(c *CaseCtx) {
 					break
 				}
 				run.FaultSinceOpen = true
+				if cfg.Mode == 2 {
+					// sparse mode does not undo a commit that failed on an I/O error (known findings KF-SPARSE-FAULT*):
+					// from the first injected I/O fault on, the history belongs to its own scenario class, so that the
+					// findings stay attached to histories in which their cause occurred and every sparse history
+					// without an I/O fault (fn errors, rollbacks, oversize, read-only) is still judged strictly
+					class = "faults-sparse-after-io-fault"
+					run.Class = class
+				}
 				c.Stat("faulty_transactions", 1)
 				c.Stat("injected_"+inj.fired.Op, 1)
 				if inj.partial && inj.fired.Op == "write" {
